@@ -494,6 +494,39 @@ func (w *c18sWorld) do(f []string) []string {
 		}
 
 		return []string{strconv.Itoa(rec.Code)}
+	case "C18.sget":
+		// GET /control/blocked_services/get: what the API reads back must be what is stored (the
+		// schedule also when no service is blocked yet: seed C18-20)
+		rec := httptest.NewRecorder()
+		w.d.handleBlockedServicesGet(rec, httptest.NewRequest(http.MethodGet, "/control/blocked_services/get", nil))
+		var got struct {
+			Schedule map[string]json.RawMessage `json:"schedule"`
+			IDs      []string                   `json:"ids"`
+		}
+		if err := json.Unmarshal(rec.Body.Bytes(), &got); err != nil {
+			return []string{strconv.Itoa(rec.Code), "undecodable"}
+		}
+		zone := ""
+		_ = json.Unmarshal(got.Schedule["time_zone"], &zone)
+		res := []string{strconv.Itoa(rec.Code), vutil.Hex(zone)}
+		for _, k := range c18sDayKeys {
+			var day struct {
+				Start json.Number `json:"start"`
+				End   json.Number `json:"end"`
+			}
+			if raw, ok := got.Schedule[k]; ok {
+				_ = json.Unmarshal(raw, &day)
+			}
+			for _, v := range []json.Number{day.Start, day.End} {
+				ms, err := v.Int64()
+				if v != "" && err != nil {
+					return []string{strconv.Itoa(rec.Code), "fractional-ms", string(v)}
+				}
+				res = append(res, strconv.FormatInt(ms*1_000_000, 10))
+			}
+		}
+
+		return append(res, strconv.Itoa(len(got.IDs)))
 	case "C18.sset":
 		body, _ := json.Marshal(c18sGlobalIDs[:vutil.Atoi(f[1])])
 		rec := httptest.NewRecorder()
@@ -820,11 +853,17 @@ func c18sGen(r *rand.Rand, emit vutil.Emit) {
 			case k < 15:
 				g = newConf(g, now)
 				emit(append([]string{"C18.supd"}, fmtConf(g)...)...)
+				if r.IntN(2) == 0 {
+					emit("C18.sget")
+				}
 			case k < 16:
 				c := *g
 				c.n = r.IntN(3)
 				g = &c
 				emit("C18.sset", strconv.Itoa(g.n))
+				if r.IntN(2) == 0 {
+					emit("C18.sget")
+				}
 			default:
 				if cli != nil && r.IntN(5) == 0 {
 					cli = nil
